@@ -967,24 +967,30 @@ class Evaluator:
             out.append((cc | {(c.gid, False)}, r))
         return PW(out)
 
+    def _clip_transparent(self):
+        """Saturation is looked through only inside the documented overflow guard `save_exp`
+        (whose clipped exponents are checked separately, kin.foreign_saturation / c04.clipped_exponentials);
+        a clip / maximum / minimum anywhere else is part of the value and stays visible as an opaque atom."""
+        return self.atoms.clip_transparent and bool(self.call_stack) and str(self.call_stack[-1]).endswith("save_exp")
+
     def _p_clip(self, args, kw, node):
         x = as_pw(args[0])
         lo = kw.get("min", kw.get("a_min", args[1] if len(args) > 1 else None))
         hi = kw.get("max", kw.get("a_max", args[2] if len(args) > 2 else None))
         self.atoms.clip_sites.append(("clip", x, tuple(self.call_stack), node))
-        if self.atoms.clip_transparent:
+        if self._clip_transparent():
             return x
         return pw_un(x, lambda r: self.atoms._opaque("clip", r))
 
     def _p_maximum(self, args, kw, node):
         self.atoms.clip_sites.append(("maximum", as_pw(args[0]), tuple(self.call_stack), node))
-        if self.atoms.clip_transparent:
+        if self._clip_transparent():
             return as_pw(args[0])
         return pw_bin(as_pw(args[0]), as_pw(args[1]), lambda a, b: self.atoms._opaque("max", a - b) + b)
 
     def _p_minimum(self, args, kw, node):
         self.atoms.clip_sites.append(("minimum", as_pw(args[0]), tuple(self.call_stack), node))
-        if self.atoms.clip_transparent:
+        if self._clip_transparent():
             return as_pw(args[0])
         return pw_bin(as_pw(args[0]), as_pw(args[1]), lambda a, b: self.atoms._opaque("min", a - b) + b)
 
